@@ -183,7 +183,7 @@ def find_nth(hay_masked, hay, needle, k, what, fuzzy=False):
     ms = [m for m in re.finditer(pat, hay)]
     if len(ms) >= k:
         return ms[k - 1].start(), ms[k - 1].end(), len(ms)
-    if fuzzy:
+    if fuzzy and len(ms) == 0:
         for n in range(len(toks) - 1, 2, -1):
             ms = [m for m in re.finditer(r'\s*'.join(toks[:n]), hay)]
             if len(ms) >= k:
